@@ -172,6 +172,9 @@ func (d *Driver) Enabled(e *mc.Env, s *mc.State) []mc.Op {
 	add("hook-to-native(B,1+2,A,one-receipt)", opData{kind: "hook", who: "B", to: "A", amt: sdkmath.NewInt(3), split: true})
 	// the contract's swapToNative reached through another contract (a router, a wallet contract): the transaction
 	// is addressed to that contract, the event is the bound contract's all the same
+	// somebody parks native coins of the token on the token module's own account (an ordinary address to the bank):
+	// a conversion still burns exactly the converted amount
+	add("park(A,1->token-module-account)", opData{kind: "park", who: "A", amt: one})
 	// the contract hands over whatever string its caller named as receiver; one that is no account address of the
 	// chain cannot be paid: the conversion must fail as a whole (the contract side has already burned)
 	add("!hook-to-native(B,2,receiver=0x-hex-of-A)", opData{kind: "hook", who: "B", to: "A", amt: sdkmath.NewInt(2), rawTo: eth("A").Hex()})
@@ -255,6 +258,9 @@ func (d *Driver) Apply(e *mc.Env, s *mc.State, op mc.Op) []mc.Finding {
 		if post := d.ledger(e, s); !same(pre, post) {
 			fs = append(fs, mc.F("C10/param-change-moved-value", "%s: ledgers changed: before %s after %s", op.Name, pre, post))
 		}
+		return fs
+	case "park":
+		s.Deliver(e, op.Name, mc.Send(mc.Addr(od.who), mc.ModuleAddr(tokentypes.ModuleName), mc.CI(unitA, amt)))
 		return fs
 	case "to", "from", "hook":
 		src := pre.native[od.who]
